@@ -475,10 +475,10 @@ impl Gen<'_> {
 /// D34 (reading an element of array<void> in a `for` body / binding a void item faults the VM; this reaches
 /// `for x in a`, find, contains, `==`, clone, filled on arrays of void) and D35 (an out-of-range store of a void
 /// value, directly or through swap/remove, is not detected) are queued as `fix:` commits.  The model is the
-/// repaired behaviour.  Until both have landed the element type `void` is kept out of the main stream and the
-/// failing shapes are run as direct property checks (each failure is reported as a concrete failing input);
-/// set this to `false` when the fixes are in /repo: void then joins the main stream like every other type.
-const VOID_WORKAROUND: bool = true;
+/// repaired behaviour.  Both landed in /repo (df16aaf and the void-slot fixes before it), so `void` is in the main
+/// stream like every other element type; the shapes that failed stay as a regression corpus that runs first.
+/// (`true` takes `void` out of the main stream again — only useful when bisecting a regression.)
+const VOID_WORKAROUND: bool = false;
 
 struct Job { ty: Ty, n1: usize, n2: usize, sts: Vec<St>, expect: String, directed: bool }
 
@@ -585,7 +585,8 @@ fn main() {
 
     // D34 / D35 (fix rows): while `void` is out of the main stream the failing shapes are run here against the
     // property itself (a failure is a concrete failing input and is reported as such)
-    if VOID_WORKAROUND {
+    {
+        // regression corpus of D34 / D35 (fixed in /repo): runs first on every run
         let probes: [(&str, &str, Result<&str, &str>); 7] = [
             ("D34", "let a: array<void> = [nil, nil, nil]\nvar n = 0\nfor x in a {\n  n = n + 1\n}\nprint(n)\n", Ok("3")),
             ("D34", "let a: array<void> = [nil]\nfor i in 2 {\n  a[0]\n}\nprint(\"done\")\n", Ok("done")),
@@ -609,7 +610,7 @@ fn main() {
                     match want { Ok(o) => format!("prints {o}"), Err(k) => format!("runtime error {k}") }));
             }
         }
-        if still == 0 {
+        if still == 0 && VOID_WORKAROUND {
             ctx.notes.push("D34/D35 no longer reproduce: set VOID_WORKAROUND = false in harness/src/bin/c26.rs".into());
         }
     }
